@@ -7,6 +7,7 @@
 #include <nitro/options/exception.hpp>
 
 #include <cstring>
+#include <iomanip>
 
 namespace h
 {
@@ -15,7 +16,8 @@ static const int NDTAB = 9;
 
 struct Arg
 {
-    int kind = 0; // 0 std::string, 1 long, 2 char, 3 double, 4 const char*, 5 const char[8] (NUL padded)
+    int kind = 0; // 0 std::string, 1 long, 2 char, 3 double, 4 const char*, 5 const char[8] (NUL padded),
+                  // 6 std::hex, 7 std::boolalpha (stream manipulators: only in exception arguments)
     std::string s;
     long long i = 0;
     int d = 0;
@@ -68,6 +70,10 @@ static std::ostream& operator<<(std::ostream& o, const AnyArg& x)
 {
     switch (x.a->kind)
     {
+    case 6:
+        return o << std::hex;
+    case 7:
+        return o << std::boolalpha;
     case 5:
     {
         char field[8] = { 0 };
@@ -93,6 +99,10 @@ static std::string render(const Arg& a)
 {
     switch (a.kind)
     {
+    case 6:
+        return "<std::hex>";
+    case 7:
+        return "<std::boolalpha>";
     case 5:
         return field_text(a);
     case 0:
@@ -223,7 +233,11 @@ Case generate(vf::Src& src, const std::string& mode)
     {
         int na = src.irange(1, 4);
         for (int i = 0; i < na; ++i)
+        {
             c.args.push_back(gen_arg(src));
+            if (src.coin(12))
+                c.args.back().kind = src.coin(60) ? 6 : 7; // std::hex / std::boolalpha
+        }
     }
     return c;
 }
@@ -330,19 +344,45 @@ std::string check(const Case& c, vf::Ctx& ctx)
         std::vector<Arg> v = c.args;
         if (v.size() > 4)
             v.resize(4);
+        // the stream representations, concatenated: all arguments streamed into ONE fresh
+        // stream (a manipulator among them acts on the arguments behind it, and on nothing else)
         std::string want;
-        for (auto& a : v)
-            want += render(a);
+        {
+            std::ostringstream fresh;
+            for (auto& a : v)
+                fresh << AnyArg{ &a };
+            want = fresh.str();
+        }
         bool caught = false;
         std::string got = c.what == 1 ? raise_what<nitro::except::exception>(v, caught)
                                       : raise_what<nitro::options::parsing_error>(v, caught);
         if (v.size() >= 2)
             ctx.mark_nontrivial();
+        bool manip = false;
+        for (auto& a : v)
+            manip |= a.kind >= 6;
+        if (manip)
+            ctx.tag("raise:manipulator-argument");
         if (!caught)
             return "raise did not throw the requested exception type";
         if (got != want)
             return "exception message is " + vf::vis(got, 200) + ", concatenation of the arguments is " +
                    vf::vis(want, 200);
+        // the next exception starts from scratch: nothing of this one's formatting state leaks
+        {
+            Arg n;
+            n.kind = 1;
+            n.i = 255;
+            Arg b;
+            b.kind = 1;
+            b.i = 1;
+            std::vector<Arg> next = { n, b };
+            bool c2 = false;
+            std::string got2 = raise_what<nitro::except::exception>(next, c2);
+            if (!c2 || got2 != "2551")
+                return "a later exception with the arguments (255, 1) reads " + vf::vis(got2, 60) +
+                       " instead of \"2551\": state of an earlier message leaked into it";
+        }
         return "";
     }
 
